@@ -51,9 +51,11 @@ func checks() map[string]CheckDef {
 			{Pkg: "internal/zzverif/c04", Func: "HarnessByHash", Quick: [][]int64{{3}}, Thorough: [][]int64{{5}}, Labels: []string{"C04/by-hash-found-iff-stored", "C04/by-hash-returns-that-header", "C04/absent-is-404", "C04/reads-never-modify"}},
 			{Pkg: "internal/zzverif/c04", Func: "HarnessTips", Quick: [][]int64{{3}}, Thorough: [][]int64{{4}, {5}}, Labels: []string{"C04/tips-exact-set", "C04/tip-longest", "C04/tips-only-stored"}},
 			{Pkg: "internal/zzverif/c04", Func: "HarnessAncestors", Quick: [][]int64{{3}}, Thorough: [][]int64{{4}, {5}}, Labels: []string{"C04/ancestors-error-iff-not-descendant", "C04/ancestors-exact-path"}},
+			{Pkg: "internal/zzverif/c04", Func: "HarnessByHeight", Quick: [][]int64{{3}, {4}}, Thorough: [][]int64{{5}, {6}}, Labels: []string{"C04/by-height-answers", "C04/by-height-only-stored", "C04/by-height-only-from-window", "C04/by-height-no-duplicates", "C04/by-height-all-longest-in-window"}},
+			{Pkg: "internal/zzverif/c04", Func: "HarnessCommonAncestor", Quick: [][]int64{{3, 1}, {3, 2}}, Thorough: [][]int64{{4, 2}, {3, 3}, {5, 2}}, Labels: []string{"C04/common-ancestor-unknown-hash-is-an-error", "C04/common-ancestor-found-iff-one-exists", "C04/common-ancestor-is-the-highest-common-one"}},
 		},
-		Bounds:  []string{"arbitrary INV-H store of k rows (quick k=3, thorough k<=5), every column symbolic; query hash an arbitrary string (by-hash/state) or any ordered pair of distinct stored headers (ancestors)"},
-		Outside: []string{"by-height windows and common-ancestor (not yet encoded)", "JSON mapping of the responses (headers/model.go, tips/model.go)", "PostgreSQL", "tips: the row order of the UNION is unspecified, the result is compared as a set"},
+		Bounds:  []string{"arbitrary INV-H store of k rows (quick k=3, thorough k<=5), every column symbolic; query hash an arbitrary string (by-hash/state) or any ordered pair of distinct stored headers (ancestors); by-height: any height and count with |.| < 2^40; common-ancestor: every list of n stored-or-unknown hashes (quick n<=2, thorough n<=3), on stores without a parent stored after its child"},
+		Outside: []string{"JSON mapping of the responses (headers/model.go, tips/model.go)", "PostgreSQL", "tips: the row order of the UNION is unspecified, the result is compared as a set"},
 		Stubs:   []string{"zerolog calls have no effect", "sqlx over the sqlm model"},
 	})
 	add(CheckDef{
@@ -216,6 +218,8 @@ func checks() map[string]CheckDef {
 			{Pkg: "transports/p2p", Func: "HarnessAdmission",
 				Labels: []string{"C18/admitted-iff-not-banned-and-below-both-limits", "C18/refused-peer-is-disconnected", "C18/refusal-changes-no-counter", "C18/never-above-total-limit", "C18/never-above-per-host-limit",
 					"C18/admission-counts-host-and-group", "C18/counters-return-when-peer-leaves", "C18/ban-lasts-the-configured-duration", "C18/expired-ban-is-dropped-on-admission", "C18/ban-kept-until-expiry-then-dropped"}},
+			{Pkg: "transports/p2p", Func: "HarnessBan",
+				Labels: []string{"C18/ban-runs-from-the-latest-ban", "C18/ban-changes-no-counter", "C18/banned-host-is-refused-while-the-ban-runs"}},
 		},
 		Bounds:  []string{"one add / done / ban step of the server's peer handler from an arbitrary peer state around one host: total peers in {0, 1, MaxPeers-1, MaxPeers, MaxPeers+1}, the host's connection counter and the group counter any value < 2^20, ban entry absent or ending any number of seconds (|delta| in 2..100000) before or after now, ban duration 0/1/2 h, server shutting down or not, peer inbound / outbound / persistent", "the counting argument 'counters return to zero' is this +1/-1 symmetry applied event by event (induction over events: argument)"},
 		Outside: []string{"the connection manager half of the property (outbound target kept, redial after failure): connmgr.connHandler is a select loop over channels and timers, not encodable", "ban boundaries within one second of now (left out so that replays on the real clock are deterministic)", "addrmgr.GroupKey is an uninterpreted function of the address", "per-host limit counts non-persistent peers only (persistent peers are operator-added and deliberately not counted)"},
